@@ -10,11 +10,11 @@ CONFIG = {
     ],
     "modelled": ["cache.AddToUHash", "cache.RemoveFromUHash", "cache.SetUserID", "cache.SearchUserRaw", "cache.DoSearchUserRaw",
                  "cache.GetUserID", "cache.LoadUHash", "cache.fillUHash", "cache.InitFillUHash", "cache.userecRawAddToUHash",
-                 "cache.checkHash", "cache.SHM.Reset", "lookup histories across two processes (op prefix peer)", "cache.NewSHM / shm.CreateShm / shm.OpenShm (isCreate, isNew, header initialisation, Version/Size handshake)", "ptt.SetupNewUser at the index level (checks, free-slot search, SetUserID, failing .PASSWDS write; op register)", "main_init start sequence of a second process (NewSHM + LoadUHash; op restart)",
+                 "cache.checkHash", "cache.SHM.Reset", "lookup histories across two processes (op prefix peer)", "cache.NewSHM / shm.CreateShm / shm.OpenShm (isCreate, isNew, header initialisation, Version/Size handshake)", "ptt.SetupNewUser at the index level (checks, free-slot search, SetUserID, failing .PASSWDS write; op register)", "ptt.tryCleanUser/killUser effect on .PASSWDS (sweepFile; ops expire, register … sweep)", "main_init start sequence of a second process (NewSHM + LoadUHash; op restart)",
                  "cmsys.StringHashWithHashBits/fnv1a32StrCase", "types.Cstrcmp", "types.Cstrcasecmp", "ptttype.UserID_t.IsValid"],
     "assumptions": [
         "histories inside the quantifier: SetUserID on any slot; RemoveFromUHash followed (before any reload) by AddToUHash/SetUserID of that slot; AddToUHash only on a slot that is on no chain; cold load from a zeroed segment with at most MAX_USERS records; on-the-fly reload (by the owner or by a freshly started creator/opener process) from a file whose ids equal the live ids as C strings, possibly shorter, torn or missing; detached slots covered by the file are linked again (PRE_ALLOCATED_USERS >= MAX_USERS: no record is skipped)",
-        "ptt.tryCleanUser (sweep of expired accounts when no slot is free) is switched off in the harness by a fresh .fresh file; SetUMoney is outside this property", "one writer at a time (the Go code takes no lock around the index; concurrent writers are outside this property)",
+        "ptt.tryCleanUser runs only in `register … sweep` ops (else a fresh .fresh keeps it off) and only with a complete .PASSWDS (it dereferences a record it could not read); its killUser side effects on home directories and friend lists, and SetUMoney, are outside this property", "explicit on-the-fly reloads from a .PASSWDS that disagrees with the live table (ids emptied or renamed on file) are recorded, not judged: the unchanged loader leaves such a slot on its old chain (Lean witnesses onfly_disagreeing_file_loses_slot, reload_after_sweep_loses_live_id); no production path performs such a reload", "one writer at a time (the Go code takes no lock around the index; concurrent writers are outside this property)",
         "the Version/Size handshake of a freshly attaching process is exercised in the thorough tier; a long-lived peer process on the same segment (lookups and changes, `peer <op>`) in both tiers; the model has one state: the segment",
         "a lookup depends on the segment only: the oracle never calls the functions under test outside recorded ops, and a slot detached by RemoveFromUHash counts as absent from the index although its bytes stay in Userid",
     ],
